@@ -430,3 +430,39 @@ def run_copy(P, rep):
                 'so out-of-range input is accepted and a stale value can reject a valid configuration' %
                 (sorted(x.split('.')[1] for x in g) or 'some condition')))
     rep.floor('C12.COPY', 60)
+    run_accum(P, rep)
+
+
+def run_accum(P, rep):
+    """C12.ACCUM: verify_settings accumulates its verdict in one local that it returns.  A rejection recorded there must survive to
+    the return: after its initialisation the accumulator may only be assigned an error literal, be merged (`x = c ? err : x`,
+    `if (x == EB_ErrorNone) x = f()`), or be assigned a callee's verdict when nothing could have been recorded yet.  A plain
+    `x = helper(..)` later in the function resets earlier rejections whenever the helper is satisfied."""
+    from engine.facts import strip, pstr, subexprs, callee_name
+    n = 0
+    for f in P.fns:
+        if f.nocfg or f.lib != 'Encoder' or f.name not in ('verify_settings',) and not f.name.startswith('verify_'):
+            continue
+        rets = [ev for ev in f.events(('ret',)) if ev.get('e') is not None and strip(ev['e'])[0] == 'v']
+        accs = {strip(ev['e'])[1] for ev in rets}
+        for acc in sorted(accs):
+            stores = [ev for ev in f.events(('st',)) if ev['e'][0] == 'a' and ev['e'][1] == '=' and strip(ev['e'][2])[0] == 'v' and strip(ev['e'][2])[1] == acc]
+            errs = [ev for ev in stores if strip(ev['e'][3])[0] == 'l' and strip(ev['e'][3])[1] != 0]
+            if len(errs) < 2:
+                continue
+            first_err = min(ev.get('l', 0) for ev in errs)
+            for ev in stores:
+                r = strip(ev['e'][3])
+                if r[0] == 'l':
+                    continue
+                n += 1
+                merged = any(x[0] == 'v' and x[1] == acc for x in subexprs(r)) or \
+                    any(c is not None and any(x[0] == 'v' and x[1] == acc for x in subexprs(c)) for k, c, l in f.ctl_chain(ev))
+                early = ev.get('l', 0) < first_err
+                ok = merged or early
+                rep.ob('C12.ACCUM', '%s/%s=%s' % (f.name, acc, pstr(r)[:40]), ok, f.loc(ev),
+                       ('%s takes the verdict of %s %s' % (acc, pstr(r)[:40], 'merged with what was recorded' if merged else 'before any rejection can have been recorded')) if ok else
+                       ('%s = %s overwrites the accumulated verdict: every rejection recorded above this line is lost whenever %s is satisfied, and the invalid configuration is accepted' % (acc, pstr(r)[:40], callee_name(r) or 'the right-hand side')))
+    if not n:
+        rep.ob('C12.ACCUM', 'verify_settings/accumulator', True, P.fn('verify_settings', 'EbEncHandle.c').loc(), 'the verdict accumulator of verify_settings is only ever assigned error literals')
+    rep.floor('C12.ACCUM', 1)
